@@ -27,4 +27,26 @@ PROPS = {
     },
 }
 
+UP_TB = COMMON_TB + [
+    "modelled rather than verified: iscp/upstream.go flushLoop/flush/toUpstreamChunk/processDataIDAliases/ack fan-out/Close and data.go alias substitution (hand model Model/Upstream.v, tied by differential execution of the real iscp.Conn/Upstream through an in-memory transport and a scripted broker on every run); goroutine scheduling inside the library is represented by the order of events in the history; Go map iteration order is canonicalised by sorting on both sides",
+    "harness sync points: a FlushPolicy wrapper delegating IsFlush to the library's own policy object and owning the ticker channel, and a sent-storage wrapper signalling Store (both injected through public/verif-tagged options)",
+]
+PROPS["C01"] = {
+    "props": "Props/C01.v", "gens": [], "harness": [{"bin": "h-upstream", "okmask": 2}],
+    "technique": "Coq proof (invariant by induction over arbitrary event histories) + differential correspondence of the Gallina model with iscp.Upstream",
+    "level_text": "Machine-checked theorems (Props/C01.v) over the executable model of the upstream: for every flush policy, initial alias table and every history of Write/Tick/Flush/alias/result/Close events: per-data-id conservation as a list equality (chunk contents in sequence order ++ buffer = accepted writes), numbering 1..N, close request totals and nothing after it, ack-hook log = received results, one send hook per chunk with the transmitted content, alias forms only with aliases the broker handed out for that id. The model is tied to the code on every run: ~1000 histories (all op sequences of length 3 over a 5-6 letter alphabet per policy + random ones) are executed on the real library and every per-operation State() snapshot, every chunk at the broker, both hook logs, return codes and the close request are compared with the model inside Coq; the boolean predicate c01_ok is also evaluated on the implementation's own trace.",
+    "level_note": "Trusted: Coq kernel + vm_compute, the hand-written model (validated differentially), harness and scripted broker. Acks are causal (the broker acknowledges only chunks it received). Concurrent writers are covered by the theorems (any interleaving is an event list) but exercised by the harness only sequentially in the quick tier; hook delivery is awaited up to 500 ms after Close.",
+    "trusted_base": UP_TB,
+    "assumptions": ["connection stays up (C02/C05 cover outages)", "broker_wf: the broker hands out at most one alias per data id and acknowledges only chunks it has received",
+                    "sequence numbers below 2^32-1 and totals below 2^64 (beyond, the code itself closes the stream; modelled as u_failed)"],
+}
+PROPS["C20"] = {
+    "props": "Props/C20.v", "gens": [], "harness": [{"bin": "h-upstream", "okmask": 4}],
+    "technique": "Coq proof (step lemmas + invariant over arbitrary histories) + differential correspondence of the Gallina model with iscp.Upstream",
+    "level_text": "Machine-checked theorems (Props/C20.v) over the same upstream model as C01: a successful Flush leaves the buffer empty and (by conservation) every earlier accepted point is in a chunk; none/interval policies never transmit on a write; a write is cut exactly when the policy predicate holds of the buffered payload including it (uint32 truncation modelled) and the chunk then holds everything buffered; immediate cuts every write; a tick leaves nothing buffered; sent + buffered = accepted for every reachable state; no chunk without groups. Tied to the code on every run by the h-upstream correspondence (per-operation State() snapshots compared with the model) and by the predicate c20_ok evaluated on the implementation's own snapshots (cut points recomputed from the write history alone).",
+    "level_note": "Trusted: as C01. The interval bound on the real clock is not measured: ticks are injected through a harness-owned ticker, so 'one interval' is checked as 'one tick' (the library's own time.Ticker is assumed to fire).",
+    "trusted_base": UP_TB,
+    "assumptions": ["connection stays up", "ticks are delivered by the runtime's ticker at the configured interval"],
+}
+
 NOT_APPLICABLE = {}
